@@ -227,6 +227,8 @@ def gen_cases(tier, seed):
     for h in ((17, 19) if tier == "quick" else (16, 17, 18, 19, 20, 21)):
         for v in range(3 if tier == "quick" else 8):
             sp, dirs = spine_shape(h, None if v == 0 else random.Random(seed * 131 + h * 17 + v))
+            if 2 * count(sp) + 2 >= 60000:
+                continue        # the harness' key space (MAXK in harness/avl_h.c); such a shape would only abort the harness
             d, n = dump_shape(sp)
             k = key_at(sp, dirs)
             ops = [f"load {d}", f"ins {k - 1}", "trav", f"load {d}", f"ins {k + 1}", f"load {d}", f"del {k}", "trav"] + \
